@@ -13,12 +13,13 @@ CLANG = "clang++-14"
 CLANG_FLAGS = ["-std=c++17", "-O1", "-fno-vectorize", "-fno-slp-vectorize", "-fno-unroll-loops",
                "-ffp-contract=off", "-fno-access-control", "-DRKCOMMON_VERIF", "-Wno-everything"]
 CBMC_FLAGS = ["--unwinding-assertions", "--signed-overflow-check", "--undefined-shift-check",
-              "--drop-unused-functions", "--no-malloc-may-fail", "--json-ui", "--trace", "--verbosity", "8"]
+              "--drop-unused-functions", "--no-malloc-may-fail", "--object-bits", "10", "--json-ui", "--trace", "--verbosity", "8"]
 NCPU = int(os.environ.get("VP_JOBS", "16"))
 
 
 class Entry:
-    def __init__(self, name, unwind=4, unwindset=None, timeout=600, flags=(), witness=True, desc="", bounds=""):
+    def __init__(self, name, unwind=4, unwindset=None, timeout=600, flags=(), witness=True, desc="", bounds="", paths=False):
+        self.paths = paths
         self.name = name
         self.unwind = unwind
         self.unwindset = unwindset or {}
@@ -267,6 +268,8 @@ def run_cbmc_entry(var, entry, witness=False):
         flags = [f for f in flags if f not in ("--unwinding-assertions", "--signed-overflow-check",
                                                "--undefined-shift-check", "--trace")]
         flags += ["--no-standard-checks", "--no-unwinding-assertions"]
+    if entry.paths:
+        flags += ["--paths", "lifo"]
     cmd += flags + entry.flags + u.cbmc_flags
     rc, so, se, dt = run(cmd, timeout=entry.timeout, mem_gb=float(os.environ.get("VP_MEM_GB", "24")))
     results, data, stats = parse_cbmc_json(so)
